@@ -20,7 +20,7 @@ import numpy as np
 
 from .. import dofs_common as DC
 from ..core import guarded
-from ..project import find_scale
+from ..project import find_scale, fx
 
 RULE = ('scenario = one (mesh, element) basis with one Basis event followed by Query / Complement events; each Query '
         'event is one (selection, skip set, view operation) evaluated in all applicable selector forms. Distinct = '
@@ -197,6 +197,65 @@ def _op(k, names=(), names2=(), ids2=(), **kw):
     return dict({'k': k, 'names': list(names), 'names2': list(names2), 'ids2': list(ids2)}, **kw)
 
 
+# families for which the law TraceSupport is asserted (DESIGN section 5, C07 Soundness): functions attached to an entity
+# outside the closure of a facet vanish on that facet in the stated component
+_VALUE = {'ElementTriP1', 'ElementTriP2', 'ElementTriP3', 'ElementTriP4', 'ElementTriMini', 'ElementTriCCR',
+          'ElementTriP1B', 'ElementTriP2B', 'ElementTriP1G', 'ElementTriP2G', 'ElementQuad1', 'ElementQuad2',
+          'ElementQuadS2', 'ElementQuad2G', 'ElementQuadP', 'ElementTetP1', 'ElementTetP2', 'ElementTetMini',
+          'ElementTetCCR', 'ElementHex1', 'ElementHex2', 'ElementHexS2'}
+_NORMAL = {'ElementTriRT0', 'ElementTriRT1', 'ElementTriRT2', 'ElementTriBDM1', 'ElementTetRT0', 'ElementTetRT1',
+           'ElementQuadRT0', 'ElementQuadRT1', 'ElementHexRT1'}
+_TANGENTIAL = {'ElementTriN1', 'ElementTriN2', 'ElementTetN0', 'ElementTetN1', 'ElementQuadN1'}
+
+
+def trace_component(spec):
+    if 'vec' in spec:
+        return 'value' if trace_component(spec['vec']) == 'value' else None
+    c = spec.get('cls')
+    return 'value' if c in _VALUE else 'normal' if c in _NORMAL else 'tangential' if c in _TANGENTIAL else None
+
+
+def exec_support(cx, s, comp):
+    """Values of every local basis function at the quadrature points of the selected facets (both sides of interior
+    ones), with the global number of the function and the facet normal where it is integral."""
+    from skfem.assembly import FacetBasis
+    F = np.array(s['ids'], dtype=np.int64)
+
+    def call():
+        got = _ints(cx.basis.get_dofs(F).flatten())
+        entries = []
+        for side in (0, 1):
+            Fs = F if side == 0 else F[cx.mesh.f2t[1, F] >= 0]
+            if len(Fs) == 0:
+                continue
+            with warnings.catch_warnings():
+                warnings.simplefilter('ignore')
+                fb = FacetBasis(cx.mesh, cx.basis.elem, facets=Fs, intorder=2, side=side)
+            nrm = np.asarray(fb.normals)
+            edofs = fb.element_dofs
+            for i in range(fb.Nbfun):
+                val = np.asarray(fb.basis[i][0].value)
+                val = val.reshape((-1,) + val.shape[-2:])
+                for k in range(val.shape[1]):
+                    for qq in range(val.shape[2]):
+                        nn = []
+                        if comp != 'value':
+                            n = nrm[:, k, qq]
+                            if not np.array_equal(n, np.rint(n)):
+                                continue          # normal / tangential components only on axis-parallel facets
+                            nn = [int(x) for x in n]
+                        v = [fx(float(x)) for x in val[:, k, qq]]
+                        if any(l is None for l in v):
+                            raise OverflowError('value out of fixed-point range')
+                        entries.append({'d': int(edofs[i, k]), 'v': v, 'n': nn})
+        return got, entries
+    r, err = guarded(call, 60)
+    if err or not r[1]:
+        return None                # no facet basis for this element / nothing recorded: nothing to judge
+    return {'a': 'Support', 'err': '', 'comp': comp, 'sel': {'kind': 'facets', 'ids': [int(x) + 1 for x in F]},
+            'got': r[0], 'entries': r[1]}
+
+
 def execute(rec):
     cx, err = guarded(lambda: Ctxt(rec), 120)
     if err:
@@ -204,6 +263,11 @@ def execute(rec):
     events = [DC.basis_event(cx.mesh, cx.basis)]
     sels = rec['sels']
     for q in rec['queries']:
+        if q['a'] == 'Support':
+            ev = exec_support(cx, sels[q['sel']], q['comp'])
+            if ev is not None:
+                events.append(ev)
+            continue
         if q['a'] == 'Complement':
             def call():
                 views = [_view(cx, cx.forms(j, sels[j])[0], None) for j in q['sels']]
@@ -264,7 +328,7 @@ def _subsets(rng, n, k, include_all=True):
     return out[:max(k, 3)]
 
 
-def plan(rng, mesh, elem, depth):
+def plan(rng, mesh, elem, depth, comp=None):
     """Selections and queries for one basis.  depth: 1 (quick) .. 3 (thorough)."""
     nf, nt, nv = mesh.facets.shape[1], mesh.t.shape[1], mesh.p.shape[1]
     sels = []
@@ -319,6 +383,10 @@ def plan(rng, mesh, elem, depth):
     for form in ('arrays', 'views', 'dict'):
         queries.append({'a': 'Complement', 'form': form, 'sels': [last['facets']]})
         queries.append({'a': 'Complement', 'form': form, 'sels': [last['facets'], last['elements'], by_kind['nodes'][2]]})
+    if comp is not None and mesh.dim() >= 2:
+        nonempty = [j for j in by_kind['facets'] if 0 < len(sels[j]['ids']) <= 12]
+        for j in nonempty[:1 + depth]:
+            queries.append({'a': 'Support', 'sel': j, 'comp': comp})
     queries.append({'a': 'Complement', 'form': 'views', 'sels': [last['none']]})
     queries.append({'a': 'Complement', 'form': 'arrays', 'sels': [by_kind['facets'][0]]})      # empty selection
     return sels, queries
@@ -327,7 +395,7 @@ def plan(rng, mesh, elem, depth):
 def recipe(rng, fam, mrec, spec, depth, basis='cell'):
     mesh = DC.make_mesh(mrec)
     elem = DC.build_element(spec)
-    sels, queries = plan(rng, mesh, elem, depth)
+    sels, queries = plan(rng, mesh, elem, depth, trace_component(spec) if basis == 'cell' else None)
     return {'driver': 'lookup', 'family': fam, 'mesh': mrec, 'elem': spec, 'basis': basis, 'sels': sels,
             'queries': queries}
 
@@ -418,6 +486,9 @@ def model(ctx):
         ctx.fail(clause=f'Model:{inv}', tags={'mode': 'M', 'cfg': 'MC_C07_names.cfg', 'efnames': 'distinct'},
                  scenario={'id': 'model:MC_C07_names.cfg', 'recipe': {'driver': 'model', 'cfg': 'MC_C07_names.cfg'},
                            'events': [], 'tlc_tail': r['out'][-3000:]}, pos=0)
+    if ctx.tier == 'thorough':     # the candidate repair (names read in the element's order) satisfies every clause
+        ctx.model_must_hold('MC_C07', 'MC_C07_fixed.cfg', clause_prefix='ModelFixed',
+                            env={'OUT_FILE': '', 'TIER': ctx.tier}, timeout=600)
     if not os.path.exists(out):
         return []
     doc = json.load(open(out))
